@@ -142,7 +142,11 @@ def run(name, on_step, quick=False, before_solve=None, max_steps=None, before_cr
                 p = s.createPRISM()
                 if before_solve is not None:
                     before_solve(sp, s, p)
-                g = np.zeros(len(sp['types']) ** 2 * sp['L']) if guess is None else np.array(guess)
+                if guess is None:
+                    # NB6 (grafted) writes the first guess as a 3-D array (length, rank, rank), the other notebooks as a flat vector
+                    g = np.zeros((sp['L'], len(sp['types']), len(sp['types']))) if name == 'NB6.grafted' else np.zeros(len(sp['types']) ** 2 * sp['L'])
+                else:
+                    g = np.array(guess)
                 res = G.solve(p, 'krylov', {'maxiter': 200}, guess=g, max_evals=3000)
         if res is None or not res.success:
             continue
